@@ -18,6 +18,7 @@ type GNode struct {
 	FS   string            // filler: string
 	FB   []byte            // filler: byte slice
 	FL   []int32           // filler: nil slice
+	FA   []interface{}     // filler: empty untyped list
 	P    *GNode
 	Q    *GNode
 	Kids []*GNode
@@ -38,7 +39,10 @@ func applyFiller(n *GNode, f int) {
 		n.FS = "filler"
 	case 5:
 		n.FB = []byte{1, 2, 3}
+	case 7:
+		n.FA = []interface{}{}
 	case 6:
+		n.FA = []interface{}{}
 		n.FL = []int32{}
 		n.FM = map[string]string{}
 		n.FT = time.Unix(-5, 0)
@@ -164,7 +168,7 @@ func genGraph(seed uint64, n int, withContainers bool) interface{} {
 	if withContainers {
 		ex = r
 	}
-	return buildGraph(n, slots, r.intn(7), ex)
+	return buildGraph(n, slots, r.intn(8), ex)
 }
 
 // classifier of known findings
@@ -204,7 +208,7 @@ func runC04(c *ctx) {
 		}
 		return
 	}
-	c.rule = "pointer graphs over a node type with two pointer fields, a slice-of-pointer and a map-of-pointer field, each preceded by filler fields (nil/empty map, zero/compact/millisecond timestamp, string, bytes, nil slice): EXHAUSTIVELY every assignment of the 2n pointer slots to {nil,n0..} for n<=3 nodes (n<=4 in the thorough tier) x 7 filler configurations, plus random graphs up to 200 nodes with shared slice elements and map values; oracle: canonical rooted-graph form (pointer identity classes + contents) of decode(encode(g)) equals that of g. Distinct by (n, slots, filler) or seed; non-trivial = at least one non-nil pointer."
+	c.rule = "pointer graphs over a node type with two pointer fields, a slice-of-pointer and a map-of-pointer field, each preceded by filler fields (nil/empty map, zero/compact/millisecond timestamp, string, bytes, nil slice): EXHAUSTIVELY every assignment of the 2n pointer slots to {nil,n0..} for n<=3 nodes (n<=4 in the thorough tier) x 8 filler configurations, plus random graphs up to 200 nodes with shared slice elements and map values; oracle: canonical rooted-graph form (pointer identity classes + contents) of decode(encode(g)) equals that of g. Distinct by (n, slots, filler) or seed; non-trivial = at least one non-nil pointer."
 	maxN := 3
 	if c.tier == "thorough" {
 		maxN = 4
@@ -226,7 +230,7 @@ func runC04(c *ctx) {
 					nontriv = true
 				}
 			}
-			for f := 0; f < 7; f++ {
+			for f := 0; f < 8; f++ {
 				if n == 4 && (code+f)%3 != 0 { // thorough: one third of the 4-node space per seed-independent stride
 					continue
 				}
